@@ -117,9 +117,18 @@ def run(ctx, replay):
                                     timeout=120, allow_fail=True)
         if summ is not None:
             ctx.extra["observation_close_source_store_during_rollup"] = summ.get("extra", {}).get("closeprobe")
-            ctx.log("observation (not judged): CloseStore(source store) vs its rollup job -> %s" % ctx.extra["observation_close_source_store_during_rollup"])
-    except Exception as e:  # noqa: BLE001 -- an observation must never change the verdict
-        ctx.log("observation (close vs rollup) not obtained: %s" % e)
+            ctx.log("probe: CloseStore(source store) vs its rollup job -> %s" % ctx.extra["observation_close_source_store_during_rollup"])
+            probe = ctx.extra["observation_close_source_store_during_rollup"] or {}
+            if probe.get("deadlock"):
+                # (repaired in /repo: the manager's mutex is no longer held across store.close)
+                ctx.violation("KVStore:probe:closestore-vs-rollup:deadlock",
+                              "CloseStore(source store) while its rollup job runs: CloseStore holds the store manager's mutex and waits for the "
+                              "job, the job needs the mutex to look its next target store up: both parked forever (%s)" % probe,
+                              replay_src=os.path.join(ctx.scratch, "closeprobe.ndjson") if os.path.exists(os.path.join(ctx.scratch, "closeprobe.ndjson")) else None)
+    except vcore.Unresolved:
+        raise
+    except Exception as e:  # noqa: BLE001 -- a probe that cannot be obtained is not a verdict
+        ctx.log("probe (close vs rollup) not obtained: %s" % e)
     ctx.assumptions += [
         "source interval 10s (one family per hour), targets 5min (month calculator: family = day) and 1h (year calculator: family = month); the expected base slot (hour*12, (day-1)*24+hour) and the expected target segment/family are computed by the harness from the civil date, independent of lindb's calculators; TZ=UTC",
         "one source family per history (any hour of five dates incl. a leap day and month/year ends); values integral",
